@@ -162,6 +162,38 @@ def hasSpec : Chunk → Bool
 
 def profile : Profile := Profile.debug64
 
+/-- the model's observation for a case and the environment facts (shared with the C09 driver) -/
+def modelObs (c : Case) (f : Facts) : String :=
+  let tail := " " ++ f.raw
+  match parse driverClass profile c.pattern with
+  | .err _ => "model-out-of-fuel"
+  | .panic _ => "PANIC:new -" ++ tail
+  | .ok pieces =>
+    let chunks := compileL pieces
+    let missing := (timesOfL chunks).filter (fun (fm, u) => (findDate f.dates fm u).isNone)
+    if !widthsSane c.pattern then "new-only -" ++ tail
+    else if !missing.isEmpty then "need-date:" ++ encStr (missing.head!.1) ++ tail
+    else
+      match encList (envOf c f) c.record chunks with
+      | .ok o => "ok " ++ renderOps f.masked o ++ tail
+      | .panic _ => "PANIC:encode -" ++ tail
+      | .err _ => "err -" ++ tail
+
+/-- the style calls of the implementation's operation stream -/
+def implStyles (ops : String) : Option (List Style) :=
+  if ops = "-" then none else
+  (mapM? (fun (it : String) =>
+      if it.startsWith "T" then some none
+      else if it.startsWith "S" then
+        match splitOnChar '/' (it.drop 1).toString with
+        | [t, b, i] => do
+          let text ← decOpt decNat t
+          let background ← decOpt decNat b
+          let intense ← decOpt decBool i
+          pure (some ({ text, background, intense } : Style))
+        | _ => none
+      else none) (decList ',' ops)).map (fun l => l.filterMap id)
+
 def handle : Handler := fun cas obs =>
   match decCase cas with
   | none => badCase "case"
